@@ -16,6 +16,7 @@ const WEEK_S: i128 = 604_800;
 
 fn check_tow(t: u64) -> Option<(String, String)> {
     let want = (t as i128 - LEAP_NS).rem_euclid(DAY_NS);
+    set_case(18, t as u64, 1, 0);
     match guarded(|| since_gps_week_to_since_today(t)) {
         Err(p) => Some(("tow:panic".into(), format!("since_gps_week_to_since_today({t}) panicked: {p}"))),
         Ok(got) => {
@@ -30,6 +31,7 @@ fn check_tow(t: u64) -> Option<(String, String)> {
 }
 
 fn check_week(now: u64) -> Option<(String, String)> {
+    set_case(18, now as u64, 2, 0);
     match guarded(|| gps_week_in_s(now)) {
         Err(p) => Some(("week:panic".into(), format!("gps_week_in_s({now}) panicked: {p}"))),
         Ok(w) => {
